@@ -55,7 +55,7 @@ func newDeps(w *world) *nativeDeps {
 		reg = driver.NewSqliteTestRegistry(verifTB, false, driver.WithOPL(w.opl),
 			driver.WithConfig(config.KeyNamespacesExperimentalStrictMode, w.strict))
 	} else if len(w.shape.ns.Relations) == 0 && !w.strict {
-		reg = driver.NewSqliteTestRegistry(verifTB, false, driver.WithNamespaces([]*namespace.Namespace{w.shape.ns}))
+		reg = driver.NewSqliteTestRegistry(verifTB, false, driver.WithNamespaces(w.shape.namespaces()))
 	} else {
 		// the configuration goes through the real OPL parser and type checker
 		reg = driver.NewSqliteTestRegistry(verifTB, false, driver.WithOPL(w.shape.renderOPL()),
@@ -65,7 +65,7 @@ func newDeps(w *world) *nativeDeps {
 	must(reg.Config(ctx).Set(config.KeyLimitMaxReadWidth, w.maxWidth))
 	if nm, err := reg.Config(ctx).NamespaceManager(); err != nil {
 		panic(err)
-	} else if nn, err := nm.Namespaces(ctx); err != nil || (w.opl == "" && len(nn) != 1) {
+	} else if nn, err := nm.Namespaces(ctx); err != nil || (w.opl == "" && len(nn) != len(w.shape.namespaces())) {
 		panic("native replay: the OPL rendering of the configuration was not accepted")
 	} else if w.opl == "" && len(w.shape.ns.Relations) > 0 {
 		// the parser must have produced exactly the shape's AST
